@@ -23,7 +23,11 @@ fn spec_boundary(bytes: &[u8], k: usize) -> bool {
 
 /// the longest prefix of `bytes` of at most `limit` bytes that ends on a character boundary
 fn spec_floor(bytes: &[u8], limit: usize) -> usize {
-    let mut k = if limit < bytes.len() { limit } else { bytes.len() };
+    let mut k = if limit < bytes.len() {
+        limit
+    } else {
+        bytes.len()
+    };
     while k > 0 && !spec_boundary(bytes, k) {
         k -= 1;
     }
@@ -35,8 +39,14 @@ fn spec_floor(bytes: &[u8], limit: usize) -> usize {
 #[kani::proof]
 pub fn c13_k_is_utf8_char_boundary() {
     let b: u8 = kani::any();
-    assert!(is_utf8_char_boundary(b) == (b < 128 || b >= 192), "C13: char-boundary predicate");
-    assert!(is_utf8_char_boundary(b) == ((b & 0xC0) != 0x80), "C13: char-boundary predicate (bit form)");
+    assert!(
+        is_utf8_char_boundary(b) == (b < 128 || b >= 192),
+        "C13: char-boundary predicate"
+    );
+    assert!(
+        is_utf8_char_boundary(b) == ((b & 0xC0) != 0x80),
+        "C13: char-boundary predicate (bit form)"
+    );
 }
 
 // ------------------------------------------------------------------ floor_char_boundary
@@ -126,14 +136,20 @@ fn truncate_case<const L: usize>() {
     if let Ok(s) = core::str::from_utf8(&buf[..n]) {
         let t: String<L> = truncate::<L>(s);
         let want = spec_floor(s.as_bytes(), L);
-        assert!(t.len() == want, "C13: truncated length is not the longest boundary prefix");
+        assert!(
+            t.len() == want,
+            "C13: truncated length is not the longest boundary prefix"
+        );
         assert!(t.len() <= L, "C13: longer than the capacity");
         if n <= L {
             assert!(t.len() == n, "C13: a text that fits was shortened");
         }
         let k: usize = kani::any();
         kani::assume(k < want);
-        assert!(t.as_bytes()[k] == s.as_bytes()[k], "C13: truncation altered the text");
+        assert!(
+            t.as_bytes()[k] == s.as_bytes()[k],
+            "C13: truncation altered the text"
+        );
         kani::cover!(want < n && want < L);
     }
 }
@@ -175,16 +191,27 @@ pub fn c13_k_truncate_64_window() {
     kani::assume(n <= 300);
     let bytes = &buf[..n];
     if n > 64 {
-        kani::assume((bytes[61] & 0xC0) != 0x80 || (bytes[62] & 0xC0) != 0x80 || (bytes[63] & 0xC0) != 0x80 || (bytes[64] & 0xC0) != 0x80);
+        kani::assume(
+            (bytes[61] & 0xC0) != 0x80
+                || (bytes[62] & 0xC0) != 0x80
+                || (bytes[63] & 0xC0) != 0x80
+                || (bytes[64] & 0xC0) != 0x80,
+        );
     }
     let s = unsafe { core::str::from_utf8_unchecked(bytes) };
     let t: String<64> = truncate::<64>(s);
     let want = spec_floor(bytes, 64);
-    assert!(t.len() == want, "C13: truncated length is not the longest boundary prefix");
+    assert!(
+        t.len() == want,
+        "C13: truncated length is not the longest boundary prefix"
+    );
     assert!(t.len() <= 64);
     let k: usize = kani::any();
     kani::assume(k < want);
-    assert!(t.as_bytes()[k] == bytes[k], "C13: truncation altered the text");
+    assert!(
+        t.as_bytes()[k] == bytes[k],
+        "C13: truncation altered the text"
+    );
     kani::cover!(n > 64 && want == 61);
     kani::cover!(n > 64 && want == 64);
     kani::cover!(n == 64);
@@ -211,7 +238,8 @@ pub fn c13_k_user_icon_keep_or_drop() {
     kani::assume(n <= 300);
     let s = unsafe { core::str::from_utf8_unchecked(&buf[..n]) };
     let d = BorrowedStrDeserializer::<ValueError>::new(s);
-    let r: Result<Option<String<128>>, ValueError> = deserialize_from_str_and_skip_if_too_long::<_, 128>(d);
+    let r: Result<Option<String<128>>, ValueError> =
+        deserialize_from_str_and_skip_if_too_long::<_, 128>(d);
     match r {
         Ok(Some(kept)) => {
             assert!(n <= 128, "C13: an over-long icon was kept");
@@ -242,6 +270,19 @@ pub fn c13_k_rp_icon_discarded() {
     assert!(r.is_ok(), "C13: rp icon rejected");
 }
 
+/// ... and anything that is not a text string is rejected (wrong CBOR type => error, C05).
+#[kani::proof]
+pub fn c13_k_rp_icon_must_be_text() {
+    use serde::de::value::{BoolDeserializer, BytesDeserializer, U32Deserializer, UnitDeserializer};
+    let v: u32 = kani::any();
+    assert!(Icon::deserialize(U32Deserializer::<ValueError>::new(v)).is_err(), "C13/C05: integer accepted as rp icon");
+    let b: bool = kani::any();
+    assert!(Icon::deserialize(BoolDeserializer::<ValueError>::new(b)).is_err(), "C13/C05: bool accepted as rp icon");
+    let raw: [u8; 3] = kani::any();
+    assert!(Icon::deserialize(BytesDeserializer::<ValueError>::new(&raw)).is_err(), "C13/C05: byte string accepted as rp icon");
+    assert!(Icon::deserialize(UnitDeserializer::<ValueError>::new()).is_err(), "C13/C05: null accepted as rp icon");
+}
+
 // ------------------------------------------------------------------ C14: known parameters
 /// Contract of `TryFrom<PublicKeyCredentialParameters> for KnownPublicKeyCredentialParameters`:
 /// Ok{alg} <=> type == "public-key" and alg in {-7, -8}; every i32; type strings up to 12 bytes.
@@ -249,7 +290,10 @@ pub fn c13_k_rp_icon_discarded() {
 #[kani::unwind(14)]
 pub fn c14_k_known_parameters() {
     assert!(ES256 == -7 && ED_DSA == -8, "C14: algorithm identifiers");
-    assert!(KNOWN_ALGS.len() == 2 && KNOWN_ALGS[0] == -7 && KNOWN_ALGS[1] == -8, "C14: known algorithms");
+    assert!(
+        KNOWN_ALGS.len() == 2 && KNOWN_ALGS[0] == -7 && KNOWN_ALGS[1] == -8,
+        "C14: known algorithms"
+    );
     let alg: i32 = kani::any();
     let mut key_type: String<32> = String::new();
     let n: usize = kani::any();
@@ -277,9 +321,14 @@ pub fn c14_k_known_parameters() {
             assert!(alg == -7 || alg == -8, "C14: unknown algorithm accepted");
             assert!(k.alg == alg, "C14: algorithm altered");
         }
-        Err(UnknownPKCredentialParam::UnknownType) => assert!(!is_pk, "C14: public-key rejected as unknown type"),
+        Err(UnknownPKCredentialParam::UnknownType) => {
+            assert!(!is_pk, "C14: public-key rejected as unknown type")
+        }
         Err(UnknownPKCredentialParam::UnknownAlg) => {
-            assert!(is_pk && alg != -7 && alg != -8, "C14: known algorithm rejected")
+            assert!(
+                is_pk && alg != -7 && alg != -8,
+                "C14: known algorithm rejected"
+            )
         }
     }
     kani::cover!(is_pk && alg == -8);
@@ -289,7 +338,8 @@ pub fn c14_k_known_parameters() {
 /// One list element `{"alg": <neg int -1..-24>, "type": "public-ke?"}` (19 bytes) with two symbolic leaves.
 fn put_param(out: &mut [u8], at: usize, alg_byte: u8, last: u8) {
     let tpl: [u8; 19] = [
-        0xA2, 0x63, b'a', b'l', b'g', 0x20, 0x64, b't', b'y', b'p', b'e', 0x6A, b'p', b'u', b'b', b'l', b'i', b'c', b'-',
+        0xA2, 0x63, b'a', b'l', b'g', 0x20, 0x64, b't', b'y', b'p', b'e', 0x6A, b'p', b'u', b'b',
+        b'l', b'i', b'c', b'-',
     ];
     let mut i = 0;
     while i < 19 {
@@ -309,15 +359,22 @@ fn put_param(out: &mut [u8], at: usize, alg_byte: u8, last: u8) {
 pub fn c02_k_filtered_params_serialize() {
     let n: usize = kani::any();
     kani::assume(n <= 2);
-    let mut v: heapless::Vec<KnownPublicKeyCredentialParameters, COUNT_KNOWN_ALGS> = heapless::Vec::new();
+    let mut v: heapless::Vec<KnownPublicKeyCredentialParameters, COUNT_KNOWN_ALGS> =
+        heapless::Vec::new();
     let a0: u8 = kani::any();
     let a1: u8 = kani::any();
     kani::assume(a0 < 24 && a1 < 24);
     if n > 0 {
-        v.push(KnownPublicKeyCredentialParameters { alg: -1 - a0 as i32 }).ok();
+        v.push(KnownPublicKeyCredentialParameters {
+            alg: -1 - a0 as i32,
+        })
+        .ok();
     }
     if n > 1 {
-        v.push(KnownPublicKeyCredentialParameters { alg: -1 - a1 as i32 }).ok();
+        v.push(KnownPublicKeyCredentialParameters {
+            alg: -1 - a1 as i32,
+        })
+        .ok();
     }
     let f = FilteredPublicKeyCredentialParameters(v);
     let mut buf = [0u8; 64];
